@@ -5,7 +5,7 @@ From PS Require Import Model.Router Run.Verdict.
 
 Record aobs := {
   ao_interest : list (nat * list topic);           (* node -> topics it holds a subscription or relay for (harness bookkeeping of its own API calls) *)
-  ao_links : list (nat * nat * bool);              (* connected pairs, both orientations (a, b) and (b, a); the flag: a's OUTBOUND pubsub stream to b was reset while the connection stayed up *)
+  ao_links : list (nat * nat * nat);              (* connected pairs, both orientations (a, b) and (b, a); the number: 0, or 1 = a's OUTBOUND pubsub stream to b was reset while the connection stayed up, or 2 = reset so often that a has stopped re-opening it *)
   ao_views : list (nat * list (topic * list nat))  (* node -> topic -> Topic/PubSub.ListPeers *)
 }.
 Definition ntopics : list topic := [0; 1; 2].
@@ -14,24 +14,31 @@ Definition sees (o : aobs) (a : nat) (t : topic) (b : nat) : bool :=
 Definition wants (o : aobs) (b : nat) (t : topic) : bool := memb t (aget_l b (ao_interest o)).
 
 (* 51: a's peer list for a topic differs from the connected, interested peers in what it says about b;
-   53: same, where a's own outbound stream to b had been reset (known finding: a forgets what b announced). What b lists for a is not excused. *)
+   53: same, where a's own outbound stream to b had been reset (known finding: a forgets what b announced);
+   56: same, where b's outbound stream to a was reset more often than the respawn backoff allows (known finding: b is mute towards a). *)
 Definition mon_a (o : aobs) : nat :=
   let bad := fun (a b : nat) => existsb (fun t => negb (Bool.eqb (sees o a t b) (wants o b t))) ntopics in
-  if existsb (fun l => let '(a, b, r) := l in negb r && bad a b) (ao_links o) then 51
-  else if existsb (fun l => let '(a, b, r) := l in r && bad a b) (ao_links o) then 53
+  let lvl := fun (x y : nat) => match filter (fun l => let '(a, b, _) := l in Nat.eqb a x && Nat.eqb b y) (ao_links o) with
+                                | (_, _, k) :: _ => k | [] => 0 end in
+  (* what a lists for b: 53 where a's own outbound stream to b had been reset; 56 where b has given up re-opening ITS stream to a
+     (a cannot hear from b any more); 51 otherwise *)
+  if existsb (fun l => let '(a, b, _) := l in bad a b && Nat.eqb (lvl a b) 0 && Nat.ltb (lvl b a) 2) (ao_links o) then 51
+  else if existsb (fun l => let '(a, b, _) := l in bad a b && Nat.eqb (lvl a b) 0 && Nat.leb 2 (lvl b a)) (ao_links o) then 56   (* the rarer class first *)
+  else if existsb (fun l => let '(a, b, _) := l in bad a b && Nat.ltb 0 (lvl a b)) (ao_links o) then 53
   (* nobody is listed who is not connected *)
   else if existsb (fun e => existsb (fun te => existsb (fun b =>
               negb (existsb (fun l => let '(x, y, _) := l in (Nat.eqb x (fst e) && Nat.eqb y b) || (Nat.eqb y (fst e) && Nat.eqb x b)) (ao_links o))) (snd te)) (snd e)) (ao_views o) then 54
   else 0.
 
-(* 53 is the class of a recorded finding: it is remembered and the scan goes on, so that it never hides a different
-   violation later in the same history *)
-Fixpoint aexec (l : list aobs) (idx : nat) (fnd : option nat) : verdict :=
+(* 53 and 56 are the classes of two recorded findings: the first such failure is remembered and the scan goes on, so that it
+   never hides a different violation later in the same history *)
+Fixpoint aexec (l : list aobs) (idx : nat) (fnd : option (nat * nat)) : verdict :=
   match l with
-  | [] => match fnd with Some i => VMonFail i 53 | None => VOk end
+  | [] => match fnd with Some (i, c) => VMonFail i c | None => VOk end
   | o :: l' => match mon_a o with
                | O => aexec l' (S idx) fnd
-               | 53 => aexec l' (S idx) (match fnd with Some i => Some i | None => Some idx end)
+               | 53 => aexec l' (S idx) (match fnd with Some x => Some x | None => Some (idx, 53) end)
+               | 56 => aexec l' (S idx) (match fnd with Some (i, 56) => Some (i, 56) | _ => Some (idx, 56) end)   (* the rarer class is the one reported *)
                | c => VMonFail idx c
                end
   end.
